@@ -193,4 +193,15 @@ def fam_dec2():
         out.append({'w': x, 't': y, 'kinds': ['dec2'], 'params': {'dec2': ps if x is a and y is a else [None]}})
     return out
 
-FAMILIES = {'threshold': fam_threshold, 'threshold_full': lambda: fam_threshold(True), 'dec2': fam_dec2, 'default': fam_default, 'nocopy': fam_nocopy, 'unknown': fam_unknown, 'ids': fam_ids, 'nest': fam_nest, 'evolve': fam_evolve, 'evolve_full': lambda: fam_evolve(6), 'required': fam_required, 'bytes8': lambda: fam_bytes(8), 'bytes12': lambda: fam_bytes(12), 'scalar': fam_scalar, 'list': fam_list, 'map': fam_map}
+def fam_hist():
+    leafv = ('struct', LEAF, False)
+    h1 = StructDef('HsP', [Field(1, 'required', S('i32')), Field(64, 'required', S('string')), Field(2, 'default', ('map', S('i8'), leafv)),
+                           Field(3, 'default', ('list', ('struct', LEAF, True))), Field(900, 'default', S('i64'))], has_unknown=True)
+    w = StructDef('HsW', [Field(1, 'optional', S('i64'), ptr=True), Field(64, 'optional', S('i8'), ptr=True), Field(2, 'default', ('map', S('i8'), leafv)),
+                          Field(7, 'default', S('string')), Field(900, 'optional', S('i16'), ptr=True)])
+    t = StructDef('HsT', [Field(1, 'required', S('i64')), Field(64, 'required', S('i8')), Field(2, 'default', ('map', S('i8'), leafv)),
+                          Field(900, 'required', S('i16'))], has_unknown=True)
+    ps = [{'orders': 1}]
+    return [{'p': h1, 'w': w, 't': t, 'params': ps, 'reach': ['end', 'ok', 'missing']}]
+
+FAMILIES = {'hist': fam_hist, 'threshold': fam_threshold, 'threshold_full': lambda: fam_threshold(True), 'dec2': fam_dec2, 'default': fam_default, 'nocopy': fam_nocopy, 'unknown': fam_unknown, 'ids': fam_ids, 'nest': fam_nest, 'evolve': fam_evolve, 'evolve_full': lambda: fam_evolve(6), 'required': fam_required, 'bytes8': lambda: fam_bytes(8), 'bytes12': lambda: fam_bytes(12), 'scalar': fam_scalar, 'list': fam_list, 'map': fam_map}
